@@ -52,7 +52,7 @@ class Env:
         self.repo = repo or REPO
         self.dir = scratch()
         self.confdir = os.path.join(self.dir, 'conf')
-        src = confsrc or os.path.join(self.repo, 'spil_hamlet_conf')
+        src = confsrc or os.environ.get('SPIL_CONFSRC') or os.path.join(self.repo, 'spil_hamlet_conf')
         os.makedirs(self.confdir)
         for name in os.listdir(src):
             p = os.path.join(src, name)
@@ -348,9 +348,10 @@ def write_replay(pid, payload):
 
 
 def write_evidence(pid, tier, level, coverage, wall, violations, assumptions):
-    os.makedirs(os.path.join(VERIF, 'evidence'), exist_ok=True)
+    evdir = os.environ.get('VERIF_EVIDENCE_DIR') or os.path.join(VERIF, 'evidence')
+    os.makedirs(evdir, exist_ok=True)
     ev = dict(property_id=pid, tier=tier, seed=SEED, level=level, coverage=coverage,
               assumptions=assumptions, wall_s=round(wall, 2), violations=violations)
-    with open(os.path.join(VERIF, 'evidence', pid + '.json'), 'w') as f:
+    with open(os.path.join(evdir, pid + '.json'), 'w') as f:
         json.dump(ev, f, indent=1, default=str)
     return ev
